@@ -209,7 +209,11 @@ func genTree(r *simkit.RNG, sc *Scenario, k *knobs) {
 			add(TNode{Root: "ext", Path: "shared", Kind: "dir", Mode: 0o755})
 			add(TNode{Root: "ext", Path: "shared/cur-file", Kind: "link", Target: "../file"})
 			add(TNode{Root: "ext", Path: "shared/cur-dir", Kind: "link", Target: "../dir"})
-			extFiles = append(extFiles, "shared/cur-file", "shared/cur-file")
+			// ... and one whose relative target, read from a directory of the tree instead, would
+			// name something that often exists there
+			add(TNode{Root: "ext", Path: "a", Kind: "file", Mode: 0o644, Tok: "OUT-11;"})
+			add(TNode{Root: "ext", Path: "shared/cur-a", Kind: "link", Target: "../a"})
+			extFiles = append(extFiles, "shared/cur-file", "shared/cur-a", "shared/cur-a")
 			extDirs = append(extDirs, "shared/cur-dir", "shared/cur-dir")
 		}
 		if k.extBack {
